@@ -70,6 +70,10 @@ pub struct WebSocketFramed<T, C, E, D> {
     encode_item: PhantomData<E>,
     decode_item: PhantomData<D>,
     buffer: Option<BytesMut>,
+    /// the buffer holds bytes the codec has not been asked about yet
+    readable: bool,
+    /// a decode error has been reported; the stream ends
+    errored: bool,
 }
 
 impl<T, C, E, D> Unpin for WebSocketFramed<T, C, E, D> {}
@@ -80,7 +84,7 @@ where
     C: Encoder<E, Error = anyhow::Error> + Decoder<Item = D, Error = anyhow::Error> + Unpin,
 {
     pub fn new(stream: WebSocketStream<T>, codec: C) -> Self {
-        Self { stream, codec, encode_item: PhantomData, decode_item: PhantomData, buffer: None }
+        Self { stream, codec, encode_item: PhantomData, decode_item: PhantomData, buffer: None, readable: false, errored: false }
     }
 }
 
@@ -93,11 +97,33 @@ where
     type Item = Result<D>;
 
     fn poll_next(mut self: Pin<&mut Self>, cx: &mut Context<'_>) -> Poll<Option<Self::Item>> {
+        if self.errored {
+            return Poll::Ready(None);
+        }
         loop {
+            if self.readable && self.buffer.is_none() {
+                self.readable = false;
+            }
+            if self.readable {
+                // hand the codec everything that is buffered until it asks for more input
+                let mut payload = self.buffer.take().unwrap_or_default();
+                let decoded = self.codec.decode(&mut payload);
+                if !payload.is_empty() {
+                    self.buffer = Some(payload);
+                }
+                match decoded {
+                    Ok(Some(item)) => return Poll::Ready(Some(Ok(item))),
+                    Ok(None) => self.readable = false,
+                    Err(e) => {
+                        self.errored = true;
+                        return Poll::Ready(Some(Err(e)));
+                    }
+                }
+            }
             match ready!(self.stream.poll_next_unpin(cx)) {
                 Some(Ok(msg)) => {
                     if msg.is_binary() || msg.is_text() {
-                        let mut payload = match self.buffer.take() {
+                        let payload = match self.buffer.take() {
                             Some(buffer) => {
                                 let msg_payload = msg.as_payload();
                                 let mut payload = BytesMut::with_capacity(buffer.len() + msg_payload.len());
@@ -107,15 +133,8 @@ where
                             }
                             None => BytesMut::from(msg.into_payload()),
                         };
-                        let decoded = self.codec.decode(&mut payload);
-                        if !payload.is_empty() {
-                            self.buffer = Some(payload);
-                        }
-                        match decoded {
-                            Ok(Some(item)) => return Poll::Ready(Some(Ok(item))),
-                            Ok(None) => return Poll::Pending,
-                            Err(e) => return Poll::Ready(Some(Err(e))),
-                        }
+                        self.buffer = Some(payload);
+                        self.readable = true;
                     }
                     continue;
                 }
